@@ -12,6 +12,7 @@ or :py:meth:`DiffXChangeSection.add_file`.
 import io
 import logging
 from copy import deepcopy
+from types import MemberDescriptorType
 
 from pydiffx.dom.properties import (ContainerOptionsMixin,
                                     DiffOptionsMixin,
@@ -106,6 +107,15 @@ class BaseDiffXSection(object):
         self._setup_state()
 
         for name, value in attrs.items():
+            # Internal state (anything in __slots__, such as "options",
+            # "files" or "meta_section") is not an option or a content
+            # section, even though it can be assigned to.
+            if isinstance(getattr(type(self), name, None),
+                          MemberDescriptorType):
+                raise DiffXUnknownOptionError(
+                    '"%s" is not a valid option or content section'
+                    % name)
+
             try:
                 setattr(self, name, value)
             except AttributeError:
